@@ -5,12 +5,13 @@
    msgreal oracle and stated for the MACs / AEADs by C11 / C12. The header-map codec enters as the hypothesis that the
    bytes written for the two header maps decode (to pm / um); that they decode to the maps that were written is the
    CoseMap round trip, compared with the implementation by the msgparts stream.
-   Multi-layer kinds (COSE_Sign, COSE_Mac, COSE_Encrypt with recipients) are covered by the tagging-form theorem below
-   and by the msg correspondence (produce, then consume in the three forms, compared field by field with the model). *)
+   Multi-layer kinds: COSE_Sign with any number of signers (wire form), COSE_Mac and COSE_Encrypt with any number of
+   recipients and nested recipients (produce then consume, C01_mac_roundtrip_full / C01_encrypt_roundtrip_full), the
+   tagging-form theorem, and the msg correspondence (produce, then consume in the three forms, compared field by field). *)
 From Coq Require Import String.
 From Coq Require Import NArith ZArith List Bool.
 From Cose Require Import Lib.Base Lib.Cbor Lib.CborProofs Model.GoVal Model.CborGo Model.Wire Model.Key Model.MsgLogic Model.Nonce Model.Msg Model.MsgProofs Model.MsgRoundTrip Spec.RFC9052
-     Model.ValueRoundTrip Model.MsgRoundTripFull Model.MsgRoundTripSign.
+     Model.ValueRoundTrip Model.MsgRoundTripFull Model.MsgRoundTripSign Model.MsgRoundTripRecip.
 Import ListNotations.
 
 Theorem C01_sign1_roundtrip : forall p prot unprot pl ext out pm um,
@@ -78,6 +79,23 @@ Theorem C01_mac0_roundtrip_full : forall p prot unprot pl ext out prot',
 Proof. exact mac0_roundtrip_full. Qed.
 Print Assumptions C01_mac0_roundtrip_full.
 
+(* COSE_Encrypt0 with the header codec and the nonce derivation discharged: whatever way the nonce was chosen (caller's IV,
+   Partial IV with the key's Base IV, or the entropy draw published as IV), decryption derives the same nonce from the
+   decoded headers and yields the plaintext *)
+Theorem C01_encrypt0_roundtrip_full : forall p prot unprot payload ext draw out prot' nonce unprot',
+  enc0_produce p prot unprot payload ext draw = Ok out ->
+  (forall nc pt ad ct, en_encrypt p nc pt ad = Ok ct -> en_decrypt p nc ct ad = Ok pt) ->
+  prepare_protected prot (en_key p) = Ok prot' -> alg_gate prot' (key_alg (en_key p)) = true ->
+  choose_nonce (prepare_unprotected unprot (en_key p)) (en_key p) (en_nonce p) draw = Ok (nonce, unprot') ->
+  draw <> [] -> (0 < en_nonce p)%nat ->
+  good_map prot' -> good_map unprot' ->
+  (forall pb ct itU, headers_bytes prot' = Some pb -> item_of (VMap unprot') = Some itU ->
+      encodable (IArr [ob (Some pb); itU; ob (Some ct)]) = true) ->
+  enc0_consume false p out ext
+  = Ok {| v_prot := read_back prot'; v_unprot := Some (read_back unprot'); v_payload := payload_view (match payload with Some b => b | None => [] end) |}.
+Proof. exact enc0_roundtrip_full. Qed.
+Print Assumptions C01_encrypt0_roundtrip_full.
+
 Theorem C01_read_back_accessors : forall m l, NoDup (map fst m) -> forallb (fun e => ints_in_kind (snd e)) m = true ->
   get_int (read_back m) l = get_int m l /\ get_bytes (read_back m) l = get_bytes m l
   /\ get_string (read_back m) l = get_string m l /\ get_bool (read_back m) l = get_bool m l /\ has (read_back m) l = has m l.
@@ -96,6 +114,36 @@ Theorem C01_sign_any_number_of_signers : forall vs pb itU pl ext um pm (tr : lis
   = Ok ({| v_prot := pm; v_unprot := Some um; v_payload := payload_view pl |}, map (fun t => sigent_of (fst t) (fst (snd t)) (snd (snd t))) tr).
 Proof. exact sign_accepts_wire_form. Qed.
 Print Assumptions C01_sign_any_number_of_signers.
+
+(* COSE_Mac and COSE_Encrypt with any number of recipients, each with any number of nested recipients (one nesting level):
+   produced by the model of ComputeAndEncode / EncryptAndEncode, accepted by the model of VerifyMacMessage /
+   DecryptEncryptMessage with the header maps of the message and of every recipient in the decoder's normal form
+   (induction over both recipient lists; the size hypothesis says the whole message is within the decoder's limits) *)
+Theorem C01_mac_roundtrip_full : forall p prot unprot pl ext rs out prot',
+  mac_produce p prot unprot (Some pl) ext rs = Ok out ->
+  (forall tbm tag, mc_create p tbm = Ok tag -> mc_verify p tbm tag = true) ->
+  prepare_protected prot (mc_key p) = Ok prot' -> alg_gate prot' (key_alg (mc_key p)) = true ->
+  good_map prot' -> good_map (prepare_unprotected unprot (mc_key p)) -> Forall good_recip rs ->
+  (forall it, out = enc_tagged 97 (encode it) -> encodable it = true) ->
+  mac_consume false p out ext
+  = Ok ({| v_prot := read_back prot'; v_unprot := Some (read_back (prepare_unprotected unprot (mc_key p))); v_payload := payload_view pl |},
+        map recip_rb rs).
+Proof. exact mac_roundtrip_full. Qed.
+Print Assumptions C01_mac_roundtrip_full.
+
+Theorem C01_encrypt_roundtrip_full : forall p prot unprot payload ext draw rs out prot' nonce unprot',
+  enc_produce p prot unprot payload ext draw rs = Ok out ->
+  (forall nc pt ad ct, en_encrypt p nc pt ad = Ok ct -> en_decrypt p nc ct ad = Ok pt) ->
+  prepare_protected prot (en_key p) = Ok prot' -> alg_gate prot' (key_alg (en_key p)) = true ->
+  choose_nonce (prepare_unprotected unprot (en_key p)) (en_key p) (en_nonce p) draw = Ok (nonce, unprot') ->
+  draw <> [] -> (0 < en_nonce p)%nat ->
+  good_map prot' -> good_map unprot' -> Forall good_recip rs ->
+  (forall it, out = enc_tagged 96 (encode it) -> encodable it = true) ->
+  enc_consume false p out ext
+  = Ok ({| v_prot := read_back prot'; v_unprot := Some (read_back unprot'); v_payload := payload_view (match payload with Some b => b | None => [] end) |},
+        map recip_rb rs).
+Proof. exact enc_roundtrip_full. Qed.
+Print Assumptions C01_encrypt_roundtrip_full.
 
 (* tagged, untagged or wrapped in the CWT tag: the same wire struct reaches Verify / Decrypt, for all six kinds *)
 Theorem C01_all_forms_alike : forall k fs, shaped k fs ->
@@ -127,3 +175,33 @@ Example C01_nonvacuous :
   | _ => False
   end.
 Proof. vm_compute. split; reflexivity. Qed.
+
+(* ... and a produced COSE_Encrypt0 with a Partial IV over a transparent AEAD (the ciphertext shows nonce and AAD), decrypted *)
+Example C01_nonvacuous_encrypt0 :
+  let p := {| en_key := [(ilabel 1, VInt KInt 4); (ilabel 3, VInt KInt 1); (ilabel 5, VBytes (hex "0102030405060708090a0b0c"))]; en_nonce := 12%nat;
+              en_encrypt := fun n pt ad => Ok (n ++ pt ++ ad)%list;
+              en_decrypt := fun n ct ad => if has_prefix n ct then Ok (firstn (length ct - length n - length ad) (skipn (length n) ct)) else Err |} in
+  match enc0_produce p None (Some [(ilabel 6, VBytes (hex "aabb"))]) (Some (hex "68656c6c6f")) None (hex "000000000000000000000000") with
+  | Ok out => match enc0_consume false p out None with Ok v => v_payload v = Some (hex "68656c6c6f") | _ => False end
+  | _ => False
+  end.
+Proof. vm_compute. reflexivity. Qed.
+
+(* ... and a COSE_Mac with two recipients, one of them holding two nested recipients, header maps on every level *)
+Example C01_nonvacuous_mac_recipients :
+  let p := {| mc_key := [(ilabel 1, VInt KInt 4); (ilabel 3, VInt KInt 5); (ilabel 2, VBytes (hex "6b31"))];
+              mc_create := fun tbm => Ok (hex "a5" ++ tbm)%list; mc_verify := fun tbm tag => bytes_eqb tag (hex "a5" ++ tbm)%list |} in
+  let leaf1 := {| rl_prot := Some [(ilabel 1, VInt KInt (-6))]; rl_unprot := Some [(ilabel 4, VBytes (hex "3131"))]; rl_ct := Some (hex "c0ffee") |} in
+  let leaf2 := {| rl_prot := None; rl_unprot := Some [(ilabel (-1), VMap [(ilabel 1, VInt KInt 2); (ilabel (-2), VBytes (hex "aa"))])]; rl_ct := None |} in
+  let rs := [{| rc_leaf := leaf1; rc_subs := [] |}; {| rc_leaf := leaf2; rc_subs := [leaf1; leaf2] |}] in
+  match mac_produce p None (Some [(LStr (hex "78"), VArr [VBool true])]) (Some (hex "010203")) (Some (hex "ee")) rs with
+  | Ok out =>
+      match mac_consume false p out (Some (hex "ee")) with
+      | Ok (v, rs') => rs' = map recip_rb rs /\ v_payload v = Some (hex "010203")
+      | _ => False
+      end
+      /\ is_ok (mac_consume false p (remove_cbor_tag out) (Some (hex "ee"))) = true
+      /\ is_ok (mac_consume false p out None) = false
+  | _ => False
+  end.
+Proof. exact mac_with_nested_recipients. Qed.
